@@ -1,7 +1,7 @@
 package filter
 
 type TrieNode struct {
-	children map[rune]*TrieNode
+	children map[byte]*TrieNode
 	isEnd    bool
 }
 
@@ -13,7 +13,7 @@ type Trie struct {
 func NewTrie() *Trie {
 	return &Trie{
 		root: &TrieNode{
-			children: make(map[rune]*TrieNode),
+			children: make(map[byte]*TrieNode),
 			isEnd:    false,
 		},
 	}
@@ -21,10 +21,11 @@ func NewTrie() *Trie {
 
 func (t *Trie) Insert(word string) {
 	node := t.root
-	for _, ch := range word {
+	for i := 0; i < len(word); i++ { // bytes, keys are binary strings
+		ch := word[i]
 		if node.children[ch] == nil {
 			node.children[ch] = &TrieNode{
-				children: make(map[rune]*TrieNode),
+				children: make(map[byte]*TrieNode),
 				isEnd:    false,
 			}
 		}
@@ -35,8 +36,8 @@ func (t *Trie) Insert(word string) {
 
 func (t *Trie) IsPrefixMatch(word string) bool {
 	node := t.root
-	for _, ch := range word {
-		node = node.children[ch]
+	for i := 0; i < len(word); i++ {
+		node = node.children[word[i]]
 		if node == nil {
 			return false
 		}
@@ -49,8 +50,8 @@ func (t *Trie) IsPrefixMatch(word string) bool {
 
 func (t *Trie) Search(word string) bool {
 	node := t.root
-	for _, ch := range word {
-		node = node.children[ch]
+	for i := 0; i < len(word); i++ {
+		node = node.children[word[i]]
 		if node == nil {
 			return false
 		}
